@@ -16,6 +16,9 @@ type C14Obs struct {
 	SetupErr      string `json:"setupErr"`
 	StartErr      string `json:"startErr"`
 	StartReturned bool   `json:"startReturned"`
+	RetryOK       bool   `json:"retryOk,omitempty"` // after a failed Start: a second Start on the same client succeeded
+	RetryErr      string `json:"retryErr,omitempty"`
+	RetryProtocol string `json:"retryProtocol,omitempty"`
 	IsMuxErr      bool   `json:"isMuxErr"`
 	IsSecureErr   bool   `json:"isSecureErr"`
 	Pid           int    `json:"pid"`
